@@ -282,7 +282,8 @@ def check(pid, tier, seed=None, replay=None, workers=None, budget_s=None):
   nruns, chunk = cfg["runs"], cfg.get("chunk", 8)
   jobs = [{"seed": seed, "idx": i} for i in range(nruns)]
   chunks = [jobs[i : i + chunk] for i in range(0, nruns, chunk)]
-  results, crashes, skipped = run_jobs(pid, chunks, build, tier, workdir, workers, cfg.get("timeout_s", 600), deadline=t0 + budget_s)
+  # per-run watchdog: at least 10 minutes (a slow scenario on a loaded machine is not a hang; the batch as a whole is bounded by budget_s)
+  results, crashes, skipped = run_jobs(pid, chunks, build, tier, workdir, workers, max(600, cfg.get("timeout_s", 600)), deadline=t0 + budget_s)
 
   try:
     first_log = open(os.path.join(workdir, "out0.jsonl.log")).read()
